@@ -191,8 +191,30 @@ let size_enc p ty v =
   | Panic s, _ | _, Panic s -> "ENCPANIC " ^ string_of_site s
   | Err e, _ | _, Err e -> "ENCERR " ^ err_class e
 
+(* C19, message level (Own.own_message): envelope + body on one protocol object.  `<Type>` may be `@appex`: the body is
+   the runtime's ApplicationException.  Prints the outcome, the stage reached, the values never dropped, what the
+   identifier owned, what objects outliving the call still hold, and whether the returned value contains byte strings *)
+let run_ownmsg (t : toks) : string =
+  let cfg = next t in
+  let tyname = next t in
+  let b = if tyname = "@appex" then BAppEx else BType (ty_of_name tyname) in
+  let p = pk_of_string (next t) in
+  let mode = next t in
+  let is_async = String.length mode >= 5 && String.sub mode 0 5 = "async" in
+  let bytes = bytes_of_hex (next t) in
+  let o = own_message_top (if is_async then MAsync else MSync) (keep_cfg cfg) !schema p b bytes in
+  let k = (match o.mo_outcome with Ok _ -> "ok" | Err e -> "err " ^ err_class e | Panic s -> "panic " ^ string_of_site s) in
+  let vref = (match o.mo_outcome with Ok ((_, v), _) -> if bytes_val v then 1 else 0 | _ -> 0) in
+  let nat_int n = List.length (List.init 0 (fun _ -> ())) + (let rec go k = function O -> k | S m -> go (k + 1) m in go 0 n) in
+  let count h l = List.length (List.filter (fun x -> x = h) l) in
+  k ^ " STAGE " ^ string_of_int (nat_int o.mo_stage)
+  ^ " LEAK " ^ string_of_int (List.length o.mo_leaked) ^ " HEAP " ^ string_of_int (List.length (List.filter heap_val o.mo_leaked))
+  ^ " IDENT " ^ string_of_int (count HInputRef o.mo_ident) ^ "/" ^ string_of_int (count HHeap o.mo_ident)
+  ^ " RETAIN " ^ string_of_int (List.length o.mo_retained) ^ " VREF " ^ string_of_int vref
+
 let run_case (t : toks) : string =
   let op = next t in
+  if op = "ownmsg" then run_ownmsg t else
   let cfg = next t in
   let ty = ty_of_name (next t) in
   let p = pk_of_string (next t) in
@@ -363,6 +385,7 @@ let string_of_pclass = function
   | None -> "none"
   | Some PCPathConvert -> "path-convert" | Some PCNestedMap -> "nested-map" | Some PCNoArm -> "no-arm"
   | Some PCConstContainer -> "const-container" | Some PCDangling -> "dangling"
+  | Some PCFloatSigns -> "float-signs" | Some PCFloatExp -> "float-exponent"
 let show_opt = function Some v -> show v | None -> "none"
 let show_lres f = function LOk x -> "ok " ^ f x | LErr e -> "err " ^ string_of_lerr e | LPanic s -> "panic " ^ string_of_lsite s
 
